@@ -83,6 +83,40 @@ C: E;
 E: ;
 """, tags=["nullable", "span"], inputs=["y x", "x z", "w w", "y", "w x w"])
 
+add("nullable-late1", """%start T
+%%
+T: X S;
+X: ;
+S: A 'b';
+A: B B;
+B: ;
+""", tags=["nullable", "lr1"], inputs=["b", ""])
+
+add("nullable-late2", """%start S
+%%
+S: A 'x' | 'y' A C 'z';
+A: B;
+C: A A;
+B: ;
+""", tags=["nullable", "lr1"], inputs=["x", "y z", "y"])
+
+add("closure-requeue", """%start S
+%%
+S: A 'x' | B 'y';
+A: C;
+C: D;
+D: 'd';
+B: C;
+""", tags=["lr1"], inputs=["d x", "d y", "d"])
+
+add("closure-requeue2", """%start S
+%%
+S: A 'x' | C;
+A: B;
+C: A 'y';
+B: 'b';
+""", tags=["lr1"], inputs=["b x", "b y", "b"])
+
 add("follow-nullable", """%start S
 %%
 S: B C 'd';
